@@ -285,6 +285,9 @@ func (this *Dataset) PartitionBatchInsert(ctx context.Context, partitionId uuid.
 	if err != nil {
 		return nil, err
 	}
+	if err := this.checkBatchItems(items, true); err != nil {
+		return nil, err
+	}
 
 	return partition.batchInsert(ctx, items)
 }
@@ -332,6 +335,9 @@ func (this *Dataset) PartitionBatchUpdate(ctx context.Context, partitionId uuid.
 	if err != nil {
 		return nil, err
 	}
+	if err := this.checkBatchItems(items, true); err != nil {
+		return nil, err
+	}
 
 	return partition.batchUpdate(ctx, items)
 }
@@ -361,6 +367,9 @@ func (this *Dataset) BatchRemove(ctx context.Context, items []*pb.BatchItem) (ma
 func (this *Dataset) PartitionBatchRemove(ctx context.Context, partitionId uuid.UUID, items []*pb.BatchItem) (map[uuid.UUID]error, error) {
 	partition, err := this.getPartition(partitionId)
 	if err != nil {
+		return nil, err
+	}
+	if err := this.checkBatchItems(items, false); err != nil {
 		return nil, err
 	}
 
@@ -463,6 +472,27 @@ func (this *Dataset) getPartitionForId(id uuid.UUID) *partition {
 	defer this.partitionsMu.RUnlock()
 
 	return this.partitions[utils.UuidMod(id, uint64(this.Meta().GetPartitionCount()))]
+}
+
+// Items forwarded to a partition are applied as they are: refuse anything the apply
+// function or the index could not handle
+func (this *Dataset) checkBatchItems(items []*pb.BatchItem, withValue bool) error {
+	for _, item := range items {
+		if _, err := uuid.FromBytes(item.GetId()); err != nil {
+			return err
+		}
+		if !withValue {
+			continue
+		}
+		value := math.Vector(item.GetValue())
+		if err := this.checkDimension(&value); err != nil {
+			return err
+		}
+		if err := index.Metadata(item.GetMetadata()).Validate(); err != nil {
+			return err
+		}
+	}
+	return nil
 }
 
 func (this *Dataset) checkDimension(value *math.Vector) error {
